@@ -113,6 +113,22 @@ func VerifC03Volume() {
 	// optional concrete non-ASCII first character (symbolic bytes are 7-bit)
 	atom := []string{"", "\u20ac", "\u65e5"}[vrtChoice("atom", 3)]
 	spec := atom + vrtString("spec", L, ":/.~\\aCz,ro")
+	c03CheckVolume(spec)
+}
+
+// VerifC03VolumeTokens: specs assembled from the grammar's vocabulary (path prefixes, separators, modes, a drive, a
+// hidden file name, non-ASCII names).
+func VerifC03VolumeTokens() {
+	dict := []string{".", "..", "/", "~", ":", ",", "ro", "rw", "z", "Z", "nocopy", "rshared", "a", "C", "\\", ".env", "v1", "\u00e9", "\u65e5", "data"}
+	n := 1 + vrtChoice("tokens", vrtParam("TOK", 4))
+	spec := ""
+	for k := 0; k < n; k++ {
+		spec += dict[vrtChoice("token", len(dict))]
+	}
+	c03CheckVolume(spec)
+}
+
+func c03CheckVolume(spec string) {
 	got, err := ParseVolume(spec)
 	want := c03RefVolume(spec)
 	vrtObserve("err", err != nil)
